@@ -1,99 +1,114 @@
 (* C17 -- Eventual-sends and Promises deliver in order, exactly once, never synchronously.
-   Property theorems only; proofs live in lib/EventualProofs.v and lib/PromiseProofs.v.
-   All statements are about the models instantiated with the shape facts and constants
-   translated from eventual.py / promise.py (src_cfg, src_pcfg). *)
+   Property theorems only; proofs live in lib/EventualProofs.v (+ lib/EventualSpecProofs.v), lib/PromiseProofs.v,
+   lib/PromiseGlobal.v, lib/PromiseChain.v, lib/PromiseQueue.v.
+   QUEUE: the statements are about the TRANSLATED code of eventual.py (gen/EventualGen.v: m_append, m__turn, m_flush,
+   m_eventually, m_fireEventually, m_flushEventualQueue, generated statement by statement on every run) running in the
+   hand-written environment of lib/Eventual.v (run_g: scripts as callables, Deferreds, one pending reactor call).
+   PROMISES: the statements are about the model of lib/Promise.v instantiated with the shape facts and constants
+   translated from promise.py (src_pcfg). *)
 From Coq Require Import ZArith List Bool Permutation.
 Import ListNotations.
-Require Import Verif.gen.EventualGen Verif.lib.Eventual Verif.lib.EventualProofs Verif.lib.Promise Verif.lib.PromiseProofs
-  Verif.lib.PromiseGlobal Verif.lib.PromiseChain.
+Require Import Verif.lib.EventualBase Verif.gen.EventualGen Verif.lib.EventualSpec Verif.lib.Eventual Verif.lib.EventualProofs
+  Verif.lib.Promise Verif.lib.PromiseProofs Verif.lib.PromiseGlobal Verif.lib.PromiseChain Verif.lib.PromiseQueue.
 Local Open Scope Z_scope.
 
-(* "A callable passed to the eventual-send primitive never runs before the caller returns":
-   eventually(s), at top level, from a running callable or from the callback of a flush Deferred, only records s.
-   This depends on the translated shape fact ev_append_runs_callable = false (c_append_runs src_cfg: nothing in
-   _SimpleCallQueue.append calls cb), which the model interprets: EventualProofs.ev_never_sync_needs_fact shows that
-   the dependence is real -- for a configuration whose append() calls cb the statement is false. *)
-Theorem C17_ev_never_sync : forall ctx st s,
-  snd (do_act src_cfg ctx st (AEnq s)) = [Sub (sid s)] /\
-  forall l, rans (snd (run_acts src_cfg ctx st l)) = [].
-Proof. exact ev_never_sync. Qed.
+(* THE TIE of the queue: for every program the translated code in its environment and the hand-written reference
+   machine of lib/EventualSpec.v (the shape of the current code) produce the same trace and reach the same state.
+   (The theorems below are proved on the reference machine and carried over by this equality.) *)
+Theorem C17_ev_translated_code_is_reference_machine : forall ops w,
+  let '(w', t) := run_g w ops in run good_cfg (to_q w) ops = (to_q w', t).
+Proof. exact run_bridge. Qed.
+Print Assumptions C17_ev_translated_code_is_reference_machine.
+
+(* "A callable passed to the eventual-send primitive never runs before the caller returns": the translated
+   eventually() produces no event of its own and ends normally whatever its environment is -- it never invokes the
+   entry --, so eventually(s), at top level, from a running callable or from the callback of a flush Deferred, only
+   records s.  (EventualProofs.ev_never_sync_needs_translation: an append() that also contains the call statement
+   translates to code for which this is false.) *)
+Theorem C17_ev_never_sync : forall (E : qenv) s w,
+  (exists w', m_eventually E s w = (w', [], FNorm)) /\
+  forall ctx, snd (do_act_g ctx w (AEnq s)) = [Sub (sid s)] /\
+  forall l, rans (snd (run_acts_g ctx w l)) = [].
+Proof. exact ev_never_sync_code. Qed.
 Print Assumptions C17_ev_never_sync.
+
+(* fireEventually(v) is eventually(d.callback, v) for a new Deferred d, returned unfired *)
+Theorem C17_ev_fire_eventually : forall (E : qenv) s w,
+  exists w', m_fireEventually E s w = (w', [], FRet RUnfired) /\ m_eventually E s w = (w', [], FNorm).
+Proof. exact fire_eventually_is_eventually. Qed.
+Print Assumptions C17_ev_fire_eventually.
 
 (* "callables run in the order submitted": for every program (top-level and re-entrant
    submissions, turns, flushes) the submitted ids are the ids already run followed by those queued *)
-Theorem C17_ev_fifo : forall ops st t,
-  run src_cfg q0 ops = (st, t) -> subs t = rans t ++ map sid (events st).
-Proof. exact ev_fifo. Qed.
+Theorem C17_ev_fifo : forall ops w t,
+  run_g w0 ops = (w, t) -> subs t = rans t ++ map sid (w_events w).
+Proof. exact ev_fifo_code. Qed.
 Print Assumptions C17_ev_fifo.
 
 (* ... hence each exactly once, in submission order, as soon as the queue has drained *)
-Theorem C17_ev_exactly_once : forall ops st t,
-  run src_cfg q0 ops = (st, t) -> events st = [] -> rans t = subs t.
-Proof. exact ev_exactly_once. Qed.
+Theorem C17_ev_exactly_once : forall ops w t,
+  run_g w0 ops = (w, t) -> w_events w = [] -> rans t = subs t.
+Proof. exact ev_exactly_once_code. Qed.
 Print Assumptions C17_ev_exactly_once.
 
 (* "one that raises does not prevent later ones": a turn runs every callable that was queued when
-   it started -- whether it returns, raises an Exception or raises any other BaseException (rkind
-   RNo/RExc/RBase; the handler is the bare `except:`) -- and exactly those: re-entrant submissions
-   wait for a later turn *)
-Theorem C17_ev_isolation : forall ops st t st' t',
-  run src_cfg q0 ops = (st, t) -> turn src_cfg st = (st', t') ->
-  rans t' = map sid (events st) /\ map sid (events st') = subs t'.
-Proof. exact ev_isolation. Qed.
+   it started -- whether it returns, raises an Exception or raises any other BaseException -- and exactly those:
+   re-entrant submissions wait for a later turn *)
+Theorem C17_ev_isolation : forall ops w t w' t',
+  run_g w0 ops = (w, t) -> turn_g w = (w', t') ->
+  rans t' = map sid (w_events w) /\ map sid (w_events w') = subs t'.
+Proof. exact ev_isolation_code. Qed.
 Print Assumptions C17_ev_isolation.
 
 (* queued work and registered flush observers always have a reactor call pending *)
-Theorem C17_ev_scheduled : forall ops st t,
-  run src_cfg q0 ops = (st, t) ->
-  (events st <> [] -> sched st = true) /\ (flushers st <> [] -> sched st = true) /\ in_turn st = false.
-Proof. exact ev_scheduled. Qed.
+Theorem C17_ev_scheduled : forall ops w t,
+  run_g w0 ops = (w, t) ->
+  (w_events w <> [] -> w_sched w = true) /\ (w_flushers w <> [] -> w_sched w = true) /\ w_in_turn w = false.
+Proof. exact ev_scheduled_code. Qed.
 Print Assumptions C17_ev_scheduled.
 
 (* "the queue-flush notification fires only when the queue is empty": nothing queued, nothing of
    the running batch left, no callable executing -- also when the callbacks of earlier observers
-   enqueue work or call flushEventualQueue() again, with callbacks that do the same, nested to any
-   depth (both repairs of flush()/_turn: full strength) *)
-Theorem C17_ev_flush : forall ops st t,
-  run src_cfg q0 ops = (st, t) ->
+   enqueue work or call flushEventualQueue() again, with callbacks that do the same, nested to any depth *)
+Theorem C17_ev_flush : forall ops w t,
+  run_g w0 ops = (w, t) ->
   Forall (fun e => match e with FlushFired _ n r => n = 0%nat /\ r = false | _ => True end) t.
-Proof. exact ev_flush. Qed.
+Proof. exact ev_flush_code. Qed.
 Print Assumptions C17_ev_flush.
 
-(* ... and every flush request is notified, once: for every program the deferred requests made so far
-   (FlushReq f true) are, in request order, the observers _turn has taken out of the list (FlushPop) followed
-   by those still registered -- none lost, none duplicated, first come first served --, and the notifications
-   (FlushFired) are, in order and one for one, the requests answered at once (FlushReq f false) and the
-   observers taken out of the list *)
-Theorem C17_ev_flush_accounting : forall ops st t,
-  run src_cfg q0 ops = (st, t) ->
-  fdeferred t = fpopped t ++ map fst (flushers st) /\ ffired t = fanswered t.
-Proof. exact ev_flush_accounting. Qed.
+(* ... and every flush request is notified, once: the deferred requests made so far are, in request order, the
+   observers _turn has taken out of the list followed by those still registered; the notifications are, in order and
+   one for one, the requests answered at once and the observers taken out of the list *)
+Theorem C17_ev_flush_accounting : forall ops w t,
+  run_g w0 ops = (w, t) ->
+  fdeferred t = fpopped t ++ map fst (w_flushers w) /\ ffired t = fanswered t.
+Proof. exact ev_flush_accounting_code. Qed.
 Print Assumptions C17_ev_flush_accounting.
 
-(* ... no observer stays registered when the queue is empty between two operations (so: after a turn that
-   leaves the queue empty every deferred request made so far has been notified) *)
-Theorem C17_ev_flush_drained : forall ops st t,
-  run src_cfg q0 ops = (st, t) -> events st = [] ->
-  flushers st = [] /\ fdeferred t = fpopped t.
-Proof. exact ev_flush_drained. Qed.
+(* ... no observer stays registered when the queue is empty between two operations *)
+Theorem C17_ev_flush_drained : forall ops w t,
+  run_g w0 ops = (w, t) -> w_events w = [] ->
+  w_flushers w = [] /\ fdeferred t = fpopped t.
+Proof. exact ev_flush_drained_code. Qed.
 Print Assumptions C17_ev_flush_drained.
 
 (* ... a request made between two operations is answered at once (and its callback runs right there) exactly
    when nothing is queued; otherwise it is registered behind the observers already waiting *)
-Theorem C17_ev_flush_sync_iff : forall ops st t fid cb,
-  run src_cfg q0 ops = (st, t) ->
-  (events st = [] -> exists t', snd (do_act src_cfg None st (AFlush fid cb)) = FlushReq fid false :: FlushFired fid 0%nat false :: t') /\
-  (events st <> [] -> do_act src_cfg None st (AFlush fid cb) = (set_flushers st (flushers st ++ [(fid, cb)]), [FlushReq fid true])).
-Proof. exact ev_flush_sync_iff. Qed.
+Theorem C17_ev_flush_sync_iff : forall ops w t fid cb,
+  run_g w0 ops = (w, t) ->
+  (w_events w = [] -> exists t', snd (do_act_g None w (AFlush fid cb)) = FlushReq fid false :: FlushFired fid 0%nat false :: t') /\
+  (w_events w <> [] -> exists w', do_act_g None w (AFlush fid cb) = (w', [FlushReq fid true]) /\
+                                  w_flushers w' = w_flushers w ++ [(fid, cb)] /\ w_events w' = w_events w).
+Proof. exact ev_flush_sync_iff_code. Qed.
 Print Assumptions C17_ev_flush_sync_iff.
 
-(* adequacy of the model of `while self._flushObservers and not self._events: ...pop(0).callback(None)`: with the
-   fuel [fire] gives it, the loop of the model stops because that condition is false (for every configuration,
-   not only the current one): no iteration of the real loop is cut off *)
-Theorem C17_ev_observer_loop_complete : forall c fuel st,
-  (obs_weight (flushers st) <= fuel)%nat ->
-  flushers (fst (fire_while c fuel st)) = [] \/ events (fst (fire_while c fuel st)) <> [].
-Proof. exact fire_while_complete. Qed.
+(* adequacy of the iteration bound the environment gives the translated `while` loop: for every loop whose condition is
+   "observers registered and nothing queued" and whose body pops the head of the live list and fires it, when the model
+   stops iterating the loop condition of the code is false -- no iteration of the real loop is cut off *)
+Theorem C17_ev_observer_loop_complete : forall c body n w,
+  obs_cond c -> pops_and_fires body -> (obs_weight (w_flushers w) <= n)%nat ->
+  let w1 := fst (fst (while_fuel n c body w)) in c w1 = false.
+Proof. exact observer_loop_complete. Qed.
 Print Assumptions C17_ev_observer_loop_complete.
 
 (* ------------------------------------------------------------------ Promises *)
@@ -143,7 +158,11 @@ Print Assumptions C17_pr_observers_agree.
    or Deferreds, turns in every position) and every promise: the messages accepted for it are, AS A LIST (order and
    multiplicity), those already handed to its resolution ++ those scheduled in the eventual-send queue ++ those still
    held in _pendingMethods.  (That each hand-over is to the promise's one final outcome is C17_pr_observers_agree:
-   EDelivered events are among the reports it speaks about.) *)
+   EDelivered events are among the reports it speaks about.)  A message whose method the target does not have
+   (send(p).nosuch(..), behaviour BNoMeth) is handed over like every other one -- delivered_to counts its event
+   EDeliveredNM -- and does not disturb the messages around it; what the hand-over does then (nothing is invoked, the
+   result promise is BROKEN with the AttributeError, a sendOnly swallows it) is PromiseProofs.pr_nometh_delivery /
+   pr_nometh_breaks_result / pr_nometh_sendonly_swallowed. *)
 Theorem C17_pr_delivery_global : forall ops s t p,
   prun src_pcfg ps0 ops = (s, t) ->
   sent_to p t = delivered_to p t ++ queued_for p (queue s) ++ pending_of s p.
@@ -233,3 +252,37 @@ Theorem C17_oso_exactly_once : forall ops,
   oso_told (snd (oso_run oso0 ops)) ++ o_watchers (fst (oso_run oso0 ops)) = oso_asked ops.
 Proof. exact oso_exactly_once. Qed.
 Print Assumptions C17_oso_exactly_once.
+
+(* ------------------------------------------------------------------ Promises ON the eventual-send queue *)
+
+(* the translated eventually(), for EVERY kind of callable, environment and state: the entry goes to the tail of
+   self._events, the reactor is armed, nothing else happens -- the entry is not invoked *)
+Theorem C17_ev_eventually_any_callable : forall (C F U : Type) (E : env C F U) (x : C) (w : world C F U),
+  m_eventually E x w = (appended w x, [], FNorm).
+Proof. exact (@eventually_gen). Qed.
+Print Assumptions C17_ev_eventually_any_callable.
+
+(* the translated _turn, for EVERY kind of callable and environment: the batch is taken out of self._events (left
+   empty), each entry of the batch is invoked once, in order, whatever it raises is swallowed, then the flush
+   observers are served; what the entries submit meanwhile is in self._events afterwards *)
+Theorem C17_ev_turn_any_callable : forall (C F U : Type) (E : env C F U) (w : world C F U),
+  m__turn E w =
+  let '(w2, t2, f2) := for_list (fun x rest => swallow (e_call E x rest)) (w_events w) (turn_start w) in
+  match f2 with
+  | FNorm => let '(w3, t3, f3) := seqa (obs_loop E) ret (turn_mid w2) in (w3, t2 ++ t3, f3)
+  | _ => (w2, t2, f2)
+  end.
+Proof. exact (@turn_gen). Qed.
+Print Assumptions C17_ev_turn_any_callable.
+
+(* REFINEMENT: "the Promise model shares the discipline of the queue" as a theorem.  run_p runs the promise operations
+   on top of the translated queue code: every call they schedule goes through the translated eventually(), a reactor turn
+   is the translated _turn whose environment invokes Promise._deliver / Deferred.callback.  For every configuration of
+   the promise code and every program it produces exactly the events and the state of the model of lib/Promise.v (whose
+   `queue` is self._events).  With the two theorems above: a scheduled promise callback never runs inside the operation
+   that schedules it, the callbacks of a turn are those scheduled when it started, in scheduling order, each once, and
+   what they schedule waits for the next turn. *)
+Theorem C17_pr_runs_on_the_translated_queue : forall c ops,
+  prun c ps0 ops = (abs (run_p c pw0 ops), plog (run_p c pw0 ops)).
+Proof. exact pq_refines0. Qed.
+Print Assumptions C17_pr_runs_on_the_translated_queue.
